@@ -37,8 +37,11 @@ def write(pid, tier, seed, mod, ctx, wall, nviol, reproduced):
     # minimal structural validation (jsonschema is not installed in /venv)
     assert ev["tier"] in ("quick", "thorough")
     assert isinstance(cov["samples"], list)
-    os.makedirs(os.path.join(ROOT, "evidence"), exist_ok=True)
-    tmp = os.path.join(ROOT, "evidence", pid + ".json.tmp")
+    # VERIF_EVIDENCE_DIR: used only by selftest/ (runs against scratch copies must
+    # not overwrite the evidence of the real tree)
+    evdir = os.environ.get("VERIF_EVIDENCE_DIR") or os.path.join(ROOT, "evidence")
+    os.makedirs(evdir, exist_ok=True)
+    tmp = os.path.join(evdir, pid + ".json.tmp%d" % os.getpid())
     with open(tmp, "w") as f:
         json.dump(ev, f, indent=1, sort_keys=True)
-    os.replace(tmp, os.path.join(ROOT, "evidence", pid + ".json"))
+    os.replace(tmp, os.path.join(evdir, pid + ".json"))
